@@ -24,7 +24,7 @@ FAULT_KINDS = ["fetch", "tags_all", "status", "add", "commit", "tag", "push"]
 RULE = (f"Enumerated product of config commit/tag/push x tri-state --commit/--tag-commit/--push x pre/post hook {{absent, "
         f"succeeds, fails}} x tree {{clean, unrelated file dirty, pattern file dirty}} x --allow-dirty x tag message {{empty, "
         f"set}} x remote {{present, absent}} x --dry x --fetch/--no-fetch x {{git, hg}} = {TOTAL} configurations (thorough: all; "
-        "quick: a stride-47 sample of everything - 47 is coprime to every dimension size - plus a stride-11 sample of the configurations that can reach the commit step, seed-dependent offsets), each run as a real `update --patch` against fake "
+        "quick: a stride-47 sample of everything - 47 is coprime to every dimension size - plus a stride-17 sample of the configurations that can reach the commit step, seed-dependent offsets), each run as a real `update --patch` against fake "
         "git/hg executables that log argv; plus a fault layer: for a sample of configurations that reach the commit step, "
         "each VCS sub-command kind (fetch, tag listing, status, add, commit, tag, push) is made to fail in turn; plus all 192 "
         "combinations of tag scope x --ignore-vcs-tag x --set-version x fetch x remote x vcs x --dry (which decide whether a second, "
@@ -48,7 +48,7 @@ def decode(i):
 
 class Domain:
     """thorough: the whole product.  quick: a stride-47 sample of the whole product (47 is coprime to every dimension
-    size, so all values and pairs are covered) plus a stride-11 sample of the half that can reach the commit step
+    size, so all values and pairs are covered) plus a stride-17 sample of the half that can reach the commit step
     (config commit on, no --no-commit), where most of the behaviour lives."""
 
     def __init__(self, tier, seed):
@@ -57,7 +57,7 @@ class Domain:
         else:
             a = list(range(seed % 47, TOTAL, 47))
             deep = [i for i in range(TOTAL) if decode(i)["cfg_commit"] and decode(i)["cli_commit"] is not False]
-            b = deep[seed % 11::11]
+            b = deep[seed % 17::17]
             self.idx = sorted(set(a) | set(b))
 
     def __len__(self):
